@@ -290,6 +290,25 @@ func (u *Unit) dispatchCall(st *State, call *ast.CallExpr, fn *types.Func, recv 
 		return v
 	}
 	u.note("abstracted", key)
+	// an uncontracted function that by its name reads into a buffer (io.ReadAtLeast, rand.Read, binary.Read ...): the
+	// contents of its byte-slice arguments are arbitrary afterwards (everything else about an abstracted call - no
+	// effect on modelled state - remains an assumption listed in the evidence)
+	if strings.HasPrefix(fn.Name(), "Read") || fn.Name() == "Decode" {
+		for _, a := range args {
+			if a.Kind == KSlice && a.T != nil {
+				if sl, ok := a.T.Underlying().(*types.Slice); ok {
+					if _, isB := sl.Elem().Underlying().(*types.Basic); isB {
+						name, sort := u.elemHeapName(sl.Elem())
+						if sort != "" {
+							h := u.heapTerm(st, name, sort)
+							u.logWrite(st, name, a.Arr)
+							u.setHeap(st, name, sort, tStore(h, a.Arr, u.fresh("abstracted.content", arrayElemSort(sort))))
+						}
+					}
+				}
+			}
+		}
+	}
 	return u.havocResults(st, sig, fn.Name())
 }
 
